@@ -169,7 +169,9 @@ def run_case(res, w, home, roots, snaps, spec, trace):
         return
     # order monitors (per root modes may differ: check each root's rows with its own mode)
     for (ri, spelling, a, b, mode) in spec:
-        check_order([x for x in rows_lv if x[0] == ri], mode, by_abs, res, ctxs)
+        check_order([x for x in rows_lv if x[0] == ri], mode.replace("symlinks", "").strip(), by_abs, res, ctxs)
+    if any("symlinks" in s[4] for s in spec) and any("symlinks" not in s[4] for s in spec):
+        res.count("per_root_symlinks_option")
     if trace:
         # O3: depth computed by the implementation == model level of the directory's children
         seen_dirs = {}
@@ -197,7 +199,7 @@ def run_case(res, w, home, roots, snaps, spec, trace):
     if rows:
         res.nt("%s|%s" % ("+".join(tree.shape_key(snaps[s[0]]) for s in spec),
                           ";".join("%s,%s,%s,%s" % s[1:] for s in spec)))
-    res.cover("modes", ",".join(sorted(set(s[4] or "default" for s in spec))))
+    res.cover("modes", ",".join(sorted(set(s[4].replace("symlinks", "").strip() or "default" for s in spec))))
     res.cover("spellings", spec[0][1])
     res.cover("nroots", len(spec))
     for s in spec:
@@ -224,12 +226,21 @@ def run_job(job):
                 os.mkdir(os.path.join(w, name))
                 nodes = tree.gen_tree(rng, max_entries=job.get("max_entries", 30), max_depth=rng.randint(1, 7),
                                       kinds=("file", "dir", "symlink", "fifo", "socket", "chr", "blk"))
+                full = [n["path"] for n in nodes if n["kind"] == "dir" and any(m["path"].startswith(n["path"] + "/") for m in nodes)]
+                if full and rng.random() < 0.5:     # a link to a populated directory: listed, never entered
+                    nodes.append({"path": "zl%d" % rng.randrange(3), "kind": "symlink", "target": rng.choice(full)})
                 refused = tree.materialise(os.path.join(w, name), nodes)
                 for rf in refused:
                     res.inc("refused: %s" % (rf,))
                 snap = tree.snapshot(os.path.join(w, name))
                 snaps.append(snap)
                 maxd = max([maxd] + [e.level for e in snap])
+            # a link-free root that carries the `symlinks` option: its own rows do not change, and the option must not
+            # reach the other roots of the same query (they keep listing their links without descending)
+            os.mkdir(os.path.join(w, "zp"))
+            tree.materialise(os.path.join(w, "zp"), tree.gen_tree(rng, max_entries=8, max_depth=2, kinds=("file", "dir")))
+            roots = roots + ["zp"]
+            snaps.append(tree.snapshot(os.path.join(w, "zp")))
             for qi in range(job["queries"]):
                 k = rng.randint(1, nroots)
                 idxs = rng.sample(range(nroots), k)
@@ -246,6 +257,10 @@ def run_job(job):
                         a = b = None
                         mode = ""
                     spec.append((ri, sp, a, b, mode))
+                if rng.random() < 0.3 and all(x[1] not in (".", "implicit") for x in spec):
+                    pm = rng.choice(["symlinks", "symlinks", "dfs symlinks", "symlinks bfs", "symlinks dfs"])
+                    spec.insert(rng.choice([0, 0, rng.randint(0, len(spec))]),
+                                (len(roots) - 1, rng.choice(["rel", "abs", "dotrel"]), rng.choice([None, None, 1, 2]), rng.choice([None, None, 1, 3]), pm))
                 run_case(res, w, home, roots, snaps, spec, trace=(qi % 4 == 0))
         elif job["kind"] == "nonutf8":
             # names that are not valid UTF-8 (legal on Linux): rows are printed lossily, so entries can only be counted:
@@ -364,12 +379,12 @@ def main(chk):
     return chk.finish(
         rule="random trees (1-3 disjoint roots, every creatable entry kind) x root spellings x windows "
              "0..depth+2 x {default,bfs,dfs}; plus every directory-tree shape with <= %d directories x windows "
-             "0..4 x {bfs,dfs}. Non-trivial = query returned >= 1 row; distinct by (tree shape hash, window/mode/spelling)."
+             "0..4 x {bfs,dfs}; 30 %% of the random queries also search a link-free root carrying `symlinks` (the option must stay with that root). Non-trivial = query returned >= 1 row; distinct by (tree shape hash, window/mode/spelling)."
              % (4 if quick else 6),
         assumptions=["deciding binary built without LTO (otherwise the release profile)",
                      "ground truth = os.lstat walk of the tree after it was built",
                      "rows are mapped to entries by normalising the printed path against the cwd; path spelling is not judged"],
-        require={"modes": 3, "spellings": 5, "entry_kinds": 8},
+        require={"modes": 3, "spellings": 5, "entry_kinds": 8, "per_root_symlinks_option": 50},
         exhaustive={"dir_tree_shapes": len(shapes), "windows": "0..4 x 0..4", "modes": ["bfs", "dfs"],
                     "completed_shapes": chk.counts.get("exhaustive_shapes_done", 0)},
     )
